@@ -21,13 +21,14 @@ RULE = (
     "assertion p, history, proved; per contest max_p, p_values, proved).  After every operation the whole state is compared "
     "with the reference status model and with a twin NonnegMean run on the assertion's own data.  Non-trivial = state in "
     "which some but not all assertions are within their limit, or a confirmed assertion currently above its limit; "
-    "distinct = distinct (contest set, canonical state)"
+    "distinct = distinct (contest set, canonical state).  In addition, for every single contest and sample, risk limits equal to the "
+    "measured risk, one ulp below / above it and 1e-9..1e-4 relatively below it, followed by summarize_status"
 )
 ASSUMPTIONS = [
     "the twin test is a fresh NonnegMean with the contest's configuration, fed the output of the assertion's own mvrs_to_data (whose correctness is C06's business)",
     "stdout of summarize_status is captured and ignored",
 ]
-REQUIRE_VAC = ["states_some_but_not_all_confirmed", "failing_assertion_in_looser_contest", "proved_but_currently_above_limit", "summarize_true", "summarize_false", "resets_after_evidence"]
+REQUIRE_VAC = ["risk_limit_at_or_next_to_measured_risk", "states_some_but_not_all_confirmed", "failing_assertion_in_looser_contest", "proved_but_currently_above_limit", "summarize_true", "summarize_false", "resets_after_evidence"]
 LIMITS = [0.05, 0.2, 0.5]
 N = 20
 
@@ -226,7 +227,39 @@ def configs():
             yield (a, b), (la, lb)
 
 
+def boundary_limits(k, sname):
+    """risk limits at and immediately around the contest's measured risk for this sample"""
+    cons = make_contests((k,), (0.5,))
+    mv, cv = make_sample(sname)
+    with contextlib.redirect_stdout(io.StringIO()):
+        pm = float(Assertion.set_p_values(cons, mv, cv))
+    if not (0 < pm <= 1):
+        return []
+    cands = [pm, float(np.nextafter(pm, 0)), pm * (1 - 1e-9), pm * (1 - 1e-6), pm * (1 - 1e-4), float(np.nextafter(pm, 2)), pm * (1 + 1e-6)]
+    return sorted({l for l in cands if 0 < l <= 1})
+
+
+def run_boundary(k, rec):
+    for sname in SAMPLES:
+        for lim in boundary_limits(k, sname):
+            for hist in ((sname, "summarize"), (sname, sname, "summarize"), ("reset", sname, "summarize")):
+                feats = set()
+                v, snap = judge_history((k,), (lim,), hist, feats)
+                rec.state()
+                rec.trans()
+                rec.evals(len(hist))
+                rec.trace()
+                rec.vac("risk_limit_at_or_next_to_measured_risk")
+                for f in feats:
+                    rec.vac(f)
+                rec.observe(((k,), lim, hist, snap))
+                for key, what in v:
+                    rec.violate(key, what, {"cset": [k], "limits": [lim], "hist": list(hist)})
+
+
 def run_shard(sh, rec):
+    if sh[0] == "boundary":
+        return run_boundary(sh[1], rec)
     cset, limits, depth = sh
     init_snap = snapshot(make_contests(cset, limits))
     seen = {init_snap}
@@ -265,7 +298,7 @@ def run_shard(sh, rec):
 
 def explore(tier, seed):
     depth = 3 if tier == "quick" else 4
-    return core.pmap(run_shard, [(c, l, depth) for c, l in configs()], seed, progress="C09")
+    return core.pmap(run_shard, [("boundary", k) for k in KINDS] + [(c, l, depth) for c, l in configs()], seed, progress="C09")
 
 
 def run_case(case):
